@@ -46,10 +46,10 @@ HM = "std::collections::hash::map::HashMap::"
 EFFECT_PRIMS = ("get", "get_mut", "remove", "insert", "entry")
 
 
-def scope_model(F, placement):
+def scope_model(F, placement, conflict=False):
     """three-scope chain self -> parent -> grandparent with T held by at most one of them, and the
     oracle that answers the HashMap primitives on the scopes' maps"""
-    from absint import Sym, TOP, some, NONE, ok, std_oracle, chain
+    from absint import Sym, TOP, some, NONE, ok, err, std_oracle, chain
     map_idx = F.field_index(REG, "map")
     parent_idx = F.field_index(REG, "parent")
     order = ["self", "parent", "grandparent"]
@@ -81,6 +81,8 @@ def scope_model(F, placement):
             return Sym("T::id")
         # no borrow conflicts in this model (C02 owns those); downcasts to the stored type succeed
         if k in ("core::cell::RefCell::try_borrow", "core::cell::RefCell::try_borrow_mut") and isinstance(a0, Sym):
+            if conflict:
+                return err(Sym("BorrowMutError" if k.endswith("_mut") else "BorrowError"))
             return ok(Sym("guard:" + a0.tag))
         if k == "core::cell::RefCell::into_inner" and isinstance(a0, Sym):
             return Sym("box:" + a0.tag)
@@ -91,9 +93,9 @@ def scope_model(F, placement):
     return scopes, holder, chain(oracle, std_oracle)
 
 
-def placement_eval(F, fn, placement, extra_args=()):
+def placement_eval(F, fn, placement, extra_args=(), conflict=False, want_paths=False):
     from absint import Interp, Sym, TOP
-    scopes, holder, oracle = scope_model(F, placement)
+    scopes, holder, oracle = scope_model(F, placement, conflict)
     args = [scopes["self"]] + list(extra_args)
     args = args[:fn.body.argc] + [TOP] * max(0, fn.body.argc - len(args))
     it = Interp(fn.body, oracle, args, facts=F, inline=lambda k: k.startswith("mahf::state::registry::") or k.startswith("<mahf::state::registry::"))
@@ -120,6 +122,8 @@ def placement_eval(F, fn, placement, extra_args=()):
                 recv = ev.data[2][0] if ev.data[2] else None
                 nm = ev.data[0][len(HM):]
                 prims.add((nm, recv.tag if isinstance(recv, Sym) else repr(recv)))
+    if want_paths:
+        return prims, rets, ends, paths
     return prims, rets, ends
 
 
